@@ -48,6 +48,9 @@ def queries(tier):
             qs.append(Query("chunk-%s-cap%d" % (op, cap), "c17/chunk_step.c", env=ENV,
                             defs={"OP": code, "CAP": cap}, unwind=max(cap + 24, 70), timeout=600 if tier != "quick" else 300,
                             params={"op": op, "cap": cap}))
+    for cap in ([8] if tier == "quick" else [1, 8, 24, 40]):
+        qs.append(Query("chunk-pullup-shared-cap%d" % cap, "c17/chunk_step.c", env=ENV, defs={"OP": OPS["pullup"], "CAP": cap, "SHARED": 1}, unwind=max(cap + 24, 70),
+                        timeout=600 if tier != "quick" else 300, params={"op": "pullup of a message somebody else also holds", "cap": cap}))
     for sz in ((0, 1, 31, 32, 33, 1023, 1024, 1025, 2048) if tier == "quick" else (0, 1, 31, 32, 33, 63, 64, 1023, 1024, 1025, 2047, 2048, 4096)):
         qs.append(Query("alloc-sz%d" % sz, "c17/chunk_step.c", env=ENV, defs={"OP": 11, "CAP": sz}, unwind=8,
                         params={"op": "nni_msg_alloc", "size": sz}))
